@@ -2,6 +2,8 @@
 (* I->S binding of Totality (C06): the events recorded while the real crate *)
 (* compiled every generated input and rendered every report must be         *)
 (* behaviours of the Totality outcome machine.                              *)
+(*   every compile event carries must ("any" | "report") and at (<<>> or    *)
+(*   <<start, end>>), the expectation MCTotality printed for the input      *)
 (*   {op:"compile", id, outcome:"ok"}                                       *)
 (*   {op:"compile", id, outcome:"report", spans:[{file,len,start,end,ok}]}  *)
 (*   {op:"compile", id, outcome:"panic"|"crash"|"hang", ..}                 *)
@@ -32,10 +34,15 @@ TraceNext ==
   \/ /\ IsEv("compile")
      \* a previous report that was not rendered twice is reported, then this event is judged as usual
      /\ (phase # "idle" => Reject("compile while a report is pending"))
-     /\ CASE Ev.outcome = "ok" -> IF phase = "idle" THEN CompileOk ELSE Forget
+     /\ CASE Ev.outcome = "ok" ->
+               IF Ev.must = "report"
+               THEN Reject("an input that is erroneous by construction was accepted") /\ Forget
+               ELSE IF phase = "idle" THEN CompileOk(Ev.must) ELSE Forget
           [] Ev.outcome = "report" ->
-               IF BadSpans = {} /\ phase = "idle" THEN CompileReport(Ev.spans)
+               IF BadSpans = {} /\ phase = "idle" /\ CitesExactly(Ev.spans, Ev.at) THEN CompileReport(Ev.spans, Ev.at)
                ELSE /\ (BadSpans # {} => Reject("cited location not inside its file on character boundaries"))
+                    /\ (BadSpans = {} /\ ~CitesExactly(Ev.spans, Ev.at) =>
+                          Reject("the report does not cite exactly the erroneous text"))
                     \* the recorder renders such a report too: judge its render events
                     /\ phase' = "report" /\ shown' = {} /\ cited' = IF BadSpans = {} THEN Ev.spans ELSE <<>>
           [] OTHER -> Reject("compile did not end in a package or a report") /\ Forget
